@@ -16,7 +16,7 @@ import types
 from hypothesis import strategies as st
 
 from vf import lab, values
-from vf.core import Prop, Outcome
+from vf.core import Prop, Outcome, fd
 from vf.props.C06 import SENT
 
 from deep.api.attributes import BoundedAttributes
@@ -187,7 +187,7 @@ TEXT = st.one_of(st.sampled_from(['', 'a', 'name', 'x' * 50, 'nul\x00byte', 'ast
 SCALAR = st.one_of(st.booleans(), TEXT, st.integers(-2 ** 63, 2 ** 63 - 1), st.floats(allow_nan=False), st.binary(max_size=4))
 ATTR_VALUE = st.one_of(SCALAR, st.lists(st.integers(0, 5), max_size=3), st.lists(TEXT, max_size=3),
                        st.dictionaries(st.sampled_from(['a', 'b']), SCALAR, max_size=2))
-VID = st.fixed_dictionaries({'vid': st.sampled_from(['1', '2', '3', '10']), 'name': TEXT,
+VID = fd({'vid': st.sampled_from(['1', '2', '3', '10']), 'name': TEXT,
                              'modifiers': st.lists(st.sampled_from(['private', 'protected']), max_size=2),
                              'original_name': st.one_of(st.none(), TEXT)})
 
@@ -210,7 +210,7 @@ class C08(Prop):
 
     def strategy(self, tier):
         kinds = values.SCALAR_KINDS + values.CONTAINER_KINDS + ['bytes', 'badbytes', 'deque', 'slots', 'enum', 'obj', 'obj']
-        collector = st.fixed_dictionaries({
+        collector = fd({
             'mode': st.just('collector'),
             'values': values.value_recipes(kinds, min_nodes=1, max_nodes=8, max_items=4),
             'locals': st.lists(st.integers(0, 20), min_size=1, max_size=4),
@@ -218,7 +218,7 @@ class C08(Prop):
             'log_msg': st.sampled_from([None, 'v={s_int}', 'bad {nope}', 'sur {h0}']),
             'res': st.dictionaries(st.sampled_from(['r1', 'r2']), ATTR_VALUE, max_size=2),
         })
-        frame = st.fixed_dictionaries({'file_name': TEXT, 'short_path': TEXT, 'method_name': TEXT,
+        frame = fd({'file_name': TEXT, 'short_path': TEXT, 'method_name': TEXT,
                                        'line_number': st.integers(0, 2 ** 31 - 1),
                                        'class_name': st.one_of(st.none(), TEXT), 'is_async': st.booleans(),
                                        'column_number': st.integers(0, 1000),
@@ -226,14 +226,14 @@ class C08(Prop):
                                        'transpiled_line_number': st.integers(0, 1000),
                                        'transpiled_column_number': st.integers(0, 1000),
                                        'app_frame': st.booleans(), 'variables': st.lists(VID, max_size=2)})
-        variable = st.fixed_dictionaries({'type': TEXT, 'value': TEXT, 'hash': TEXT, 'truncated': st.booleans(),
+        variable = fd({'type': TEXT, 'value': TEXT, 'hash': TEXT, 'truncated': st.booleans(),
                                           'children': st.lists(VID, max_size=3)})
-        watch = st.fixed_dictionaries({'source': st.sampled_from(SOURCES), 'expression': TEXT,
+        watch = fd({'source': st.sampled_from(SOURCES), 'expression': TEXT,
                                        'result': st.one_of(st.none(), VID), 'error': TEXT})
-        synthetic = st.fixed_dictionaries({
+        synthetic = fd({
             'mode': st.just('synthetic'),
             'id': st.one_of(st.integers(0, 2 ** 128 - 1), st.sampled_from([0, 1, 2 ** 128 - 1, 2 ** 64])),
-            'tp': st.fixed_dictionaries({'id': TEXT, 'path': TEXT, 'line': st.integers(-1, 10 ** 6),
+            'tp': fd({'id': TEXT, 'path': TEXT, 'line': st.integers(-1, 10 ** 6),
                                          'args': st.dictionaries(TEXT, TEXT, max_size=3),
                                          'watches': st.lists(TEXT, max_size=2)}),
             'ts': st.integers(0, 2 ** 63 - 1), 'duration': st.integers(0, 2 ** 62),
@@ -244,9 +244,10 @@ class C08(Prop):
             'resource': st.dictionaries(st.sampled_from(['r1', 'r2']), ATTR_VALUE, max_size=2),
             'log_msg': st.one_of(st.none(), TEXT),
         })
-        auth = st.fixed_dictionaries({
+        auth = fd({
             'mode': st.just('auth'),
-            'kind': st.sampled_from(['none', 'empty_string', 'basic', 'basic', 'custom', 'custom_empty']),
+            'kind': st.sampled_from(['none', 'empty_string', 'basic', 'basic', 'custom', 'custom_empty', 'custom_flaky',
+                                     'custom_flaky']),
             'user': st.one_of(st.none(), TEXT), 'password': st.one_of(st.none(), TEXT),
             'metadata': st.lists(st.tuples(st.sampled_from(['authorization', 'x-api-key', 'x-tenant']),
                                            st.text(alphabet='abcXYZ019 =+/', max_size=8)), max_size=3).map(
@@ -377,8 +378,11 @@ class C08(Prop):
             if r['user'] is not None and r['password'] is not None:
                 token = base64.b64encode((r['user'] + ':' + r['password']).encode('utf-8')).decode('utf-8')
                 exp = [('authorization', 'Basic%20' + token)]
-        elif r['kind'] in ('custom', 'custom_empty'):
-            md = [tuple(x) for x in r['metadata']] if r['kind'] == 'custom' else []
+        elif r['kind'] in ('custom', 'custom_empty', 'custom_flaky'):
+            md = [tuple(x) for x in r['metadata']] if r['kind'] != 'custom_empty' else []
+            if r['kind'] == 'custom_flaky' and not md:
+                md = [('authorization', 'tok')]
+            flaky = r['kind'] == 'custom_flaky'
             mod = types.ModuleType('vf_auth_dyn')
 
             class Prov(AuthProvider):
@@ -386,6 +390,8 @@ class C08(Prop):
 
                 def provide(self):
                     Prov.calls += 1
+                    if flaky and Prov.calls == 1:
+                        raise RuntimeError('token endpoint not ready')      # fails once, then works
                     return list(md)
             mod.Prov = Prov
             sys.modules['vf_auth_dyn'] = mod
@@ -408,6 +414,11 @@ class C08(Prop):
         ps = PushService(g, th)
         from vf.props.C09 import mk_snapshot
         try:
+            if r['kind'] == 'custom_flaky':
+                try:
+                    poll.poll()             # the provider's first failure may fail this poll; no request may go out
+                except BaseException:      # noqa
+                    pass
             for _ in range(r['polls']):
                 poll.poll()
             for _ in range(r['sends']):
